@@ -334,11 +334,9 @@ func (in *Interp) reflectCall(fr *frame, f *RValue, args []*RValue, isSlice bool
 		for i, r := range rest {
 			a.elems[i] = in.reflectArg(fr, r, et)
 		}
-		if len(rest) == 0 {
-			callArgs = append(callArgs, Slice{nilS: true})
-		} else {
-			callArgs = append(callArgs, Slice{arr: a, len: len(rest), cap: len(rest)})
-		}
+		// reflect packs the variadic tail with MakeSlice: an empty tail is an empty
+		// non-nil slice
+		callArgs = append(callArgs, Slice{arr: a, len: len(rest), cap: len(rest)})
 	} else {
 		if isSlice && !sig.Variadic() {
 			rpanic(fr, "reflect: CallSlice of non-variadic function")
